@@ -343,7 +343,6 @@ func (w *WaitGroup) Wait() {
 
 // Types without scheduling relevance are passed through so that unrelated uses keep compiling.
 type (
-	Pool = sync.Pool
 	Map  = sync.Map
 	Cond = sync.Cond
 )
